@@ -9,7 +9,7 @@ from concurrent.futures import ThreadPoolExecutor
 
 from lib import gN, gbool, bspec_in, bspec_obs, lcg_bytes, hexs
 
-HEADER = "From CJ Require Import Common.Base C15.Model C15.ModelName C15.ModelObf C15.ModelAny C15.ModelDns C15.Run.\n"
+HEADER = "From CJ Require Import Common.Base C15.Model C15.ModelName C15.ModelObf C15.ModelAny C15.ModelDns C15.ModelB32 C15.ModelExch C15.Run.\n"
 DNSREG = "pkg/registrars/dns-registrar/"
 PKGS = {
     "msgformat": (".", DNSREG + "msgformat", "c15/msgformat_driver_test.go", "TestVerifC15Msgformat"),
@@ -418,6 +418,145 @@ def gen_msg_dec(ctx, wires):
     return out
 
 
+# ------------------------------------------------------------------ exchange
+def b32l(d):
+    import base64
+    return base64.b32encode(bytes(d)).rstrip(b"=").lower()
+
+
+def labels_of(enc):
+    return [enc[i:i + 63] for i in range(0, len(enc), 63)]
+
+
+def gen_query(ctx):
+    """query messages for responder.responseFor: the requester's shape and one deviation at a time"""
+    rng, quick = ctx.rng, ctx.tier == "quick"
+    out = []
+    dom = [b"t", b"example", b"com"]
+    opt = {"name": [], "type": 41, "class": 4096, "ttl": 0, "data": "", "dseed": 0, "dgen": 0}
+
+    def base(data=None, prefix=None, d=dom):
+        pre = labels_of(b32l(data)) if prefix is None else prefix
+        return {"id": rng.getrandbits(16), "flags": 0x0100, "q": [{"name": hexl(pre + d), "type": 16, "class": 1}],
+                "an": [], "ns": [], "ar": [dict(opt)]}
+
+    def add(m, d=dom):
+        out.append(Case("qmsg", "dns", {"op": "msg_rt", "msg": m}, (m, d)))
+    for n in [0, 1, 5, 49, 60, 100]:
+        add(base(rb(rng, n)))
+    for fl in [0x8100, 0x0900, 0x7900, 0x0000, 0x010f, rng.getrandbits(15)]:
+        m = base(rb(rng, 10)); m["flags"] = fl; add(m)
+    m = base(rb(rng, 10)); m["ar"] = []; add(m)
+    m = base(rb(rng, 10)); m["ar"] = [dict(opt), dict(opt)]; add(m)
+    m = base(rb(rng, 10)); m["ar"] = [dict(opt, type=1), dict(opt)]; add(m)
+    m = base(rb(rng, 10)); m["ar"] = [dict(opt, ttl=0x00010000)]; add(m)
+    m = base(rb(rng, 10)); m["ar"] = [dict(opt, ttl=0x01000000)]; add(m)
+    m = base(rb(rng, 10)); m["ar"] = [dict(opt, ttl=0x00010000), dict(opt)]; add(m)
+    for cl in [0, 100, 511, 512, 1231, 1232, 1233, 65535]:
+        m = base(rb(rng, 10)); m["ar"] = [dict(opt, **{"class": cl})]; add(m)
+    m = base(rb(rng, 10)); m["q"] = []; add(m)
+    m = base(rb(rng, 10)); m["q"] = m["q"] * 2; add(m)
+    m = base(rb(rng, 10)); m["q"][0]["type"] = 1; add(m)
+    m = base(rb(rng, 10)); m["q"][0]["class"] = 3; add(m)
+    add(base(rb(rng, 10), d=[b"t", b"example", b"org"]))          # not our domain
+    add(base(rb(rng, 10), d=[b"T", b"Example", b"COM"]))          # same domain, other case
+    add(base(rb(rng, 10), d=[b"example", b"com"]))                # shorter than the domain's suffix
+    add(base(prefix=[]))
+    for bad in [b"aaaaaaa1", b"aaaaaaa8", b"aaaa-aaa", b"a", b"aaa", b"aaaaaa", b"aaaaaaaaa", b"aaaaaaaaaaa", b"aaaaaaaaaaaaaa",
+                b"AbCdEfGh", b"aa", b"aaaa", b"aaaaa", b"aaaaaaa", b"99999999", b"a=======", b"aaaaaaa="]:
+        add(base(prefix=[bad]))
+    for _ in range(4 if quick else 60):
+        add(base(prefix=[bytes(rng.choice(b"abcdefghijklmnopqrstuvwxyz234567ABC0189-") for _ in range(rng.randrange(1, 30)))
+                         for _ in range(rng.randrange(1, 3))]))
+    return out
+
+
+EXCH_DOMAINS = [[b"t", b"example", b"com"], [b"r"]]
+
+
+def gen_exch(ctx):
+    rng, quick = ctx.rng, ctx.tier == "quick"
+    out = []
+
+    def add(plen, rlen, dom):
+        p, r = bytes(rb(rng, plen)), bytes(rb(rng, rlen))
+        out.append(Case("exchange", "responder", {"op": "exchange", "data": p.hex(), "resp": r.hex(), "domain": hexl(dom)}, (p, r, dom)))
+    for dom in EXCH_DOMAINS:
+        for plen in ([0, 1, 50, 97, 98, 99, 105, 106, 107, 108, 150, 207, 208, 300] if quick else list(range(0, 112)) + [150, 206, 207, 208, 209, 300, 1000]):
+            add(plen, rng.choice([0, 1, 20, 100]), dom)
+        for rlen in ([0, 1, 255, 700, 900, 930, 940, 950, 960, 1000, 1200, 2000, 5000] if quick else
+                     list(range(0, 40)) + list(range(230, 260)) + list(range(900, 1000, 3)) + [1200, 2000, 4076, 4078, 4080, 5000, 65517, 65520, 70000]):
+            add(rng.choice([0, 8, 40]), rlen, dom)
+    return out
+
+
+def txt_len(n):
+    return n + max(1, -(-n // 255))
+
+
+def post_exchange(ctx, c):
+    (p, resp, dom), r = c.aux, c.res
+    case = {"fam": "exchange", "data": p.hex(), "resp": resp.hex() if len(resp) < 300 else "len:%d" % len(resp), "domain": hexl(dom)}
+    if r.get("panic"):
+        ctx.fail("exchange/panic", "the exchange panicked: %s" % r["panic"], case)
+        return None
+    if r["err"].startswith(("keygen", "responder:", "requester:")):
+        ctx.broken("driver", "exchange driver could not set up the sockets: %s" % r["err"], case)
+        return None
+    labels = labels_of(b32l(bytes(49 + len(p)))) + list(dom)
+    req_ok = 48 + len(p) <= 255 and representable(labels)
+    body = 2 + 16 + len(resp)
+    qname = wire_len(labels)
+    dgram = 12 + qname + 4 + (2 + 10 + txt_len(body)) + 11
+    resp_ok = dgram <= 1232 and 16 + len(resp) <= 65535
+    kind = ("req-too-long" if not req_ok else "ok" if resp_ok else "resp-too-long")
+    ctx.count(("exchange", p, resp, tuple(dom)), kind="exchange/" + kind)
+    seen = bytes.fromhex(r["seenpay"]) if r["seen"] else None
+    if not req_ok:
+        if r["timeout"]:
+            ctx.fail("exchange/oversize-request/no-error", "RequestAndRecv neither sent nor reported an error for a %d-byte payload whose "
+                     "query name cannot be represented (it blocks; the send error is only logged)" % len(p), case)
+        elif r["ok2"] or r["seen"]:
+            ctx.fail("exchange/oversize-request/accepted", "a %d-byte payload beyond the request format was delivered or answered" % len(p), case)
+        return None
+    if r["timeout"]:
+        ctx.fail("exchange/timeout", "no result for a representable %d-byte request (answer %d bytes)" % (len(p), len(resp)), case)
+        return None
+    if seen != p:
+        ctx.fail("exchange/request", "the responder's callback was given %s instead of the %d-byte payload" % (
+            "nothing" if seen is None else "%d other bytes" % len(seen), len(p)), case)
+    if resp_ok:
+        if not (r["ok2"] and bytes.fromhex(r["out2"]) == resp):
+            ctx.fail("exchange/response", "RequestAndRecv returned %s instead of the callback's %d-byte answer" % (
+                "error %r" % r["err"] if not r["ok2"] else "%d other bytes" % (len(r["out2"]) // 2), len(resp)), case)
+    elif r["ok2"]:
+        ctx.fail("exchange/oversize-response/accepted", "RequestAndRecv returned %d bytes for an answer of %d bytes that does not fit a datagram"
+                 % (len(r["out2"]) // 2, len(resp)), case)
+    if not r["qwire"] or not r["rwire"]:
+        return None
+    return "CExch %s %s %s %s %s %s" % (gname(dom), gN(len(p)), hexs(bytes.fromhex(r["qwire"])), gN(len(resp)),
+                                        hexs(bytes.fromhex(r["rwire"])), gbool(not r["ok2"]))
+
+
+def post_qmsg(ctx, c):
+    return None
+
+
+def post_query(ctx, c):
+    (m, dom), r = c.aux.aux, c.res
+    case = {"fam": "query", "msg": msg_brief(m), "domain": hexl(dom)}
+    if r.get("panic"):
+        ctx.fail("query/panic", "responseFor panicked: %s" % r["panic"], case)
+        return None
+    if not r["ok"]:
+        ctx.broken("driver", "a generated query did not parse: %s" % r["err"], case)
+        return None
+    rcode = (r["flags"] & 15) if r["hasresp"] else -1
+    ctx.count(("query", msg_key(m), tuple(dom)), kind="query/" + ("payload" if r["haspay"] else "none" if not r["hasresp"] else "rcode%d" % rcode))
+    return "CQuery %s %s %s %s %s %s" % (g_msg(m, g_in_rr), gname(dom), gbool(r["hasresp"]), gN(r["flags"]), gbool(r["haspay"]),
+                                         hexs(bytes.fromhex(r["out"])))
+
+
 KINDS = {"generic": (0, "GenericTransportParams", 1), "prefix": (1, "PrefixTransportParams", 3),
          "dtls": (2, "DTLSTransportParams", 2), "c2s": (3, "ClientToStation", 2)}
 
@@ -702,7 +841,7 @@ def post_msg_rt(ctx, c):
                                       g_msg(r.get("msg") if r.get("ok2") else None, g_obs_rr))
 
 
-TERMS = {"msg_rt": post_msg_rt, "msg_dec": post_msg_dec, "anypb": post_any, "obf": post_obf, "reveal": post_reveal, "fmt": post_fmt, "name_rt": post_name_rt, "read_name": post_read_name, "trim": post_trim,
+TERMS = {"exchange": post_exchange, "query": post_query, "msg_rt": post_msg_rt, "msg_dec": post_msg_dec, "anypb": post_any, "obf": post_obf, "reveal": post_reveal, "fmt": post_fmt, "name_rt": post_name_rt, "read_name": post_read_name, "trim": post_trim,
          "chunks": post_chunks, "b32": post_b32}
 
 
@@ -736,6 +875,9 @@ def replay_cases(ctx):
             elif fam == "msg_dec":
                 b = bytes.fromhex(c["data"])
                 out.append(Case("msg_dec", "dns", {"op": "msg_dec", "data": b.hex()}, b))
+            elif fam == "exchange" and not c["resp"].startswith("len:"):
+                p_, r_, d_ = bytes.fromhex(c["data"]), bytes.fromhex(c["resp"]), unhexl(c["domain"])
+                out.append(Case("exchange", "responder", {"op": "exchange", "data": p_.hex(), "resp": r_.hex(), "domain": hexl(d_)}, (p_, r_, d_)))
             elif fam == "trim":
                 n, s = unhexl(c["labels"]), unhexl(c["suffix"])
                 out.append(Case("trim", "dns", {"op": "trim", "labels": hexl(n), "suffix": hexl(s)}, (n, s)))
@@ -762,7 +904,7 @@ def run(ctx):
     rc, out = ctx.coq_make(["C15/Examples.vo"])
     if rc != 0:
         ctx.broken("examples", "non-vacuity examples (C15/Examples.v) no longer check: " + out[-500:])
-    cases = replay_cases(ctx) + gen_fmt(ctx) + gen_names(ctx) + gen_req(ctx) + gen_obf(ctx) + gen_any(ctx) + gen_msg(ctx)
+    cases = replay_cases(ctx) + gen_fmt(ctx) + gen_names(ctx) + gen_req(ctx) + gen_obf(ctx) + gen_any(ctx) + gen_msg(ctx) + gen_query(ctx) + gen_exch(ctx)
     if not run_go(ctx, cases):
         return
     # second stage: what the requester sent is parsed by the dns package and answered by the responder
@@ -772,6 +914,9 @@ def run(ctx):
         if c.res["ok"] and c.res["out"]:
             stage2.append(Case("send_dec", "dns", {"op": "msg_dec", "data": c.res["out"]}, c))
             stage2.append(Case("send_query", "responder", {"op": "query", "data": c.res["out"], "domain": hexl(c.aux[1])}, c))
+    for c in cases:
+        if c.fam == "qmsg" and c.res.get("ok"):
+            stage2.append(Case("query", "responder", {"op": "query", "data": c.res["out"], "domain": hexl(c.aux[1])}, c))
     stage2 += gen_msg_dec(ctx, [bytes.fromhex(c.res["out"]) for c in cases if c.fam == "msg_rt" and c.res.get("ok") and len(c.res["out"]) < 1200])
     if stage2 and not run_go(ctx, stage2):
         return
@@ -829,6 +974,8 @@ def run(ctx):
                        "reveal/xor/ok", "reveal/xor/err", "reveal/ctr/ok", "reveal/ctr/err", "reveal/gcm/err", "reveal/nil/ok",
                        "msg_rt/ok", "msg_rt/overflow", "msg_rt/panic", "msg_rt/undecodable:namelong",
                        "msg_dec/ok", "msg_dec/eof", "msg_dec/trailing", "msg_dec/reserved", "msg_dec/ptrs",
+                       "query/payload", "query/none", "query/rcode1", "query/rcode3", "query/rcode4", "query/rcode0",
+                       "exchange/ok", "exchange/req-too-long", "exchange/resp-too-long",
                        "anypb/keep/ok", "anypb/empty/ok", "anypb/tapdance/ok", "anypb/other/err", "anypb/cross-keep/err", "anypb/nil/ok"])
     mm = ctx.coq_mismatches("all", HEADER, terms, "chk", shard=max(60, (len(terms) + 11) // 12), need_vo=["C15/Run.vo"])
     if mm:
